@@ -19,6 +19,8 @@ EXPLANATION = ("FHDL IR extracted from packet.py; FSM graphs of Packetizer/Depac
                "Dispatcher wiring by support and index-agreement rules.")
 TECHNIQUE = "AST-extracted FHDL IR + guard entailment + FSM graph + encode/decode twin comparison"
 
+COMMON = "litex/gen/common.py"
+
 
 def arbiter_requests(ctx, rid, fxa=None):
     """packet.Arbiter: request[i] is a *combinational* copy of Status(masters[i]).ongoing (shared with C04: a registered request
@@ -209,6 +211,49 @@ def run(ctx):
         ok = lo == "self.fields[k].byte * 8 + self.fields[k].offset" and hi == lo + " + self.fields[k].width"
         ctx.ob("P1", PACKET, "Header", "window = [byte*8+offset : +width]", ok,
                "" if ok else f"window is [{lo}:{hi}]", e["line"])
+
+    # ---- P1 (by value): the byte-swap helper both sides apply, interpreted (lxs/pyconst.py) on bit vectors of every width a header
+    # field can have: a permutation of the field's bits, the identity up to one byte, bytes mirrored for whole-byte widths, and
+    # undone by a second application (decode applies to the window what encode applied to the field)
+    from .. import pyconst as _pc
+    cm = ctx.mod(COMMON)
+    rb = [f_ for f_ in cm.tree.body if isinstance(f_, ast.FunctionDef) and f_.name == "reverse_bytes"]
+    ctx.need(len(rb) == 1, "reverse_bytes is no longer defined in litex/gen/common.py (anchor changed)")
+    ctx.analysed["functions"].add(f"{COMMON}::reverse_bytes")
+    cat = _pc.Native(lambda *a: [b_ for x_ in a for b_ in x_])
+    rb_funcs = {f_.name: f_ for f_ in cm.tree.body if isinstance(f_, ast.FunctionDef)}
+    bad = {"perm": None, "small": None, "bytes": None, "inv": None}
+
+    def swap(bits):
+        r_ = _pc.call(rb[0], {"s": list(bits)}, consts={"Cat": cat}, funcs=rb_funcs)
+        return r_[1] if r_[0] == "return" and isinstance(r_[1], list) else None
+    n_w = 0
+    try:
+        for w_ in range(1, 73):
+            bits = list(range(w_))
+            once = swap(bits)
+            n_w += 1
+            if once is None or sorted(once) != bits:
+                bad["perm"] = bad["perm"] or f"a {w_}-bit field is swapped to bits {once}: " + \
+                    ("bits of the field are lost or repeated, both the wire layout and the decoded field are wrong" if once is not None else "not a bit vector")
+                continue
+            if w_ <= 8 and once != bits:
+                bad["small"] = bad["small"] or f"a {w_}-bit field (one byte or less) is reordered to {once}"
+            if w_ % 8 == 0:
+                want = [b_ for j in reversed(range(w_ // 8)) for b_ in range(8 * j, 8 * j + 8)]
+                if once != want:
+                    bad["bytes"] = bad["bytes"] or f"{w_}-bit field: result {once[:16]}.., expected bytes mirrored {want[:16]}.."
+            twice = swap(once)
+            if twice != bits:
+                bad["inv" if (w_ > 8 and w_ % 8) else "bytes"] = bad["inv" if (w_ > 8 and w_ % 8) else "bytes"] or \
+                    f"a {w_}-bit field swapped by encode and swapped again by decode comes back as bits {twice}"
+    except _pc.Unknowable as ex_:
+        ctx.need(False, f"reverse_bytes cannot be interpreted ({ex_})")
+    ctx.ob("P1", COMMON, "reverse_bytes", "widths 1..72:present", n_w == 72, f"{n_w} widths", rb[0])
+    ctx.ob("P1", COMMON, "reverse_bytes", "byte swap is a permutation of the field's bits (widths 1..72)", bad["perm"] is None, bad["perm"] or "", rb[0])
+    ctx.ob("P1", COMMON, "reverse_bytes", "fields of one byte or less are left as they are", bad["small"] is None, bad["small"] or "", rb[0])
+    ctx.ob("P1", COMMON, "reverse_bytes", "whole-byte widths: bytes mirrored, bit order kept, second swap restores", bad["bytes"] is None, bad["bytes"] or "", rb[0])
+    ctx.ob("P1", COMMON, "reverse_bytes", "widths above one byte that are not whole bytes: second swap restores", bad["inv"] is None, bad["inv"] or "", rb[0])
 
     # ---- P2 PacketFIFO
     fxp = fx_of(ctx, PACKET, "PacketFIFO")
